@@ -1,57 +1,129 @@
-import CklVerif.Lemmas.C20EvalPos
+import CklVerif.Lemmas.C20EvalVal
 
 /-!
   C20 (evaluator part) — the invariant as a predicate on computations of `EvalM`.
 
-  `PosOK E S m`: started in a state satisfying `S`, the computation `m` ends in a state satisfying
-  `S`, and when it ends with a runtime error, the error position `p` and the stack trace `t` satisfy
-  `E msg p t` (`msg` the error message).  Two instances are used:
+  `PosOK E P m`: started in a state all of whose stored positions satisfy `P` (`StOK P`), the
+  computation `m` ends in such a state; when it ends with a value, every position carried by the value
+  (control signals `break` / `continue` / `return`) satisfies `P`; when it ends with a runtime error,
+  the message `msg`, the error position `p` and the stack trace `t` satisfy `E msg p t`.
+  Two instances are used:
 
-  * `E _ p t := p = pos ∧ t = []`, `S := fun _ => True`   — "every failure reports the position `pos`"
+  * `E _ p t := p = pos ∧ t = []`, `P := fun _ => True`   — "every failure reports the position `pos`"
     (the modelled built-ins),
-  * `E := EP P`, `S := StOK P`                            — "only positions satisfying `P`"
-    (the evaluator).
+  * `E := EP P`                                          — "only positions satisfying `P`" (the evaluator).
 -/
 namespace Ckl
+attribute [local irreducible] ValsOK DictOK PairsOK
 
-/-- state invariants the helper programs keep: they depend on the heap only, and are kept when a
-    cell that holds no AST is written or allocated -/
-class StInv (S : State → Prop) : Prop where
-  heap_eq : ∀ s s' : State, s'.heap = s.heap → S s → S s'
-  setCell : ∀ (s : State) (a : Nat) (c : Cell), DataCell c → S s → S (s.setCell a c)
-  alloc : ∀ (s : State) (c : Cell), DataCell c → S s → S (s.alloc c).1
-  /-- re-writing a closure cell with another name -/
-  rename : ∀ (s : State) (a : Nat) e ps ds b n n', s.cell a = some (.closure e ps ds b n) → S s →
-    S (s.setCell a (.closure e ps ds b n'))
+/-- "every position carried by the values inside `a` satisfies `P`", by the type of `a` -/
+class VC (α : Type) where
+  ok : (Pos → Prop) → α → Prop
 
-def STrue : State → Prop := fun _ => True
-
-instance : StInv STrue :=
-  ⟨fun _ _ _ _ => trivial, fun _ _ _ _ _ => trivial, fun _ _ _ _ => trivial, fun _ _ _ _ _ _ _ _ _ _ => trivial⟩
-
-instance (P : Pos → Prop) : StInv (StOK P) :=
-  ⟨fun _ _ he h => h.of_heap_eq he, fun _ a _ hc h => h.setCell a (CellOK.ofData hc),
-   fun _ _ hc h => h.alloc (CellOK.ofData hc),
-   fun _ a _ _ _ _ _ _ hc h => h.setCell a (h.closure hc)⟩
+instance : VC RVal := ⟨ValOK⟩
+instance : VC (List RVal) := ⟨ValsOK⟩
+instance : VC (List (String × RVal)) := ⟨DictOK⟩
+instance : VC (List (RVal × RVal)) := ⟨PairsOK⟩
+instance : VC (Array RVal) := ⟨fun P a => ValsOK P a.toList⟩
+instance : VC Cell := ⟨CellOK⟩
+instance : VC (List (String × List RVal)) := ⟨fun P l => ∀ x ∈ l, ValsOK P x.2⟩
+instance {α β} [VC α] [VC β] : VC (α × β) := ⟨fun P x => VC.ok P x.1 ∧ VC.ok P x.2⟩
+instance {α} [VC α] : VC (Option α) := ⟨fun P o => ∀ x, o = some x → VC.ok P x⟩
+instance : VC Unit := ⟨fun _ _ => True⟩
+instance : VC Bool := ⟨fun _ _ => True⟩
+instance : VC Int := ⟨fun _ _ => True⟩
+instance : VC Nat := ⟨fun _ _ => True⟩
+instance : VC String := ⟨fun _ _ => True⟩
+instance : VC State := ⟨fun _ _ => True⟩
+instance : VC (List Char) := ⟨fun _ _ => True⟩
+instance : VC (List String) := ⟨fun _ _ => True⟩
+instance : VC (List (Option String)) := ⟨fun _ _ => True⟩
 
 section
-variable {α β : Type} (E : String → Pos → List (String × Pos) → Prop) (S : State → Prop)
+variable {P : Pos → Prop}
+theorem VC.rval (v : RVal) : VC.ok P v ↔ ValOK P v := Iff.rfl
+theorem VC.vals (l : List RVal) : VC.ok P l ↔ ValsOK P l := Iff.rfl
+theorem VC.dict (l : List (String × RVal)) : VC.ok P l ↔ DictOK P l := Iff.rfl
+theorem VC.pairs (l : List (RVal × RVal)) : VC.ok P l ↔ PairsOK P l := Iff.rfl
+theorem VC.arr (a : Array RVal) : VC.ok P a ↔ ValsOK P a.toList := Iff.rfl
+theorem VC.cell (c : Cell) : VC.ok P c ↔ CellOK P c := Iff.rfl
+theorem VC.prod {α β} [VC α] [VC β] (x : α × β) : VC.ok P x ↔ VC.ok P x.1 ∧ VC.ok P x.2 := Iff.rfl
+theorem VC.some {α} [VC α] (a : α) : VC.ok P (Option.some a) ↔ VC.ok P a :=
+  ⟨fun h => h a rfl, fun h x hx => by cases hx; exact h⟩
+theorem VC.none {α} [VC α] : VC.ok P (Option.none : Option α) ↔ True := ⟨fun _ => trivial, fun _ _ hx => nomatch hx⟩
+theorem VC.unit (a : Unit) : VC.ok P a ↔ True := Iff.rfl
+theorem VC.bool (a : Bool) : VC.ok P a ↔ True := Iff.rfl
+theorem VC.int (a : Int) : VC.ok P a ↔ True := Iff.rfl
+theorem VC.nat (a : Nat) : VC.ok P a ↔ True := Iff.rfl
+theorem VC.string (a : String) : VC.ok P a ↔ True := Iff.rfl
+theorem VC.state (a : State) : VC.ok P a ↔ True := Iff.rfl
+theorem VC.chars (a : List Char) : VC.ok P a ↔ True := Iff.rfl
+theorem VC.strings (a : List String) : VC.ok P a ↔ True := Iff.rfl
+theorem VC.optStrings (a : List (Option String)) : VC.ok P a ↔ True := Iff.rfl
+theorem VC.compr (l : List (String × List RVal)) : VC.ok P l ↔ ∀ x ∈ l, ValsOK P x.2 := Iff.rfl
+theorem VC.compr_single (x : String) (vs : List RVal) : VC.ok P [(x, vs)] ↔ ValsOK P vs :=
+  ⟨fun h => h (x, vs) List.mem_cons_self, fun h y hy => by cases List.mem_singleton.mp hy; exact h⟩
 
-def OutOK : Out α → Prop
-  | .ok _ s => S s
-  | .err _ m p t s => E m p t ∧ S s
-  | .fail _ s => S s
+theorem StOK.cellList {s : State} (h : StOK P s) {a : Nat} {xs} (hc : s.cell a = some (.list xs)) : ValsOK P xs := h.cell hc
+theorem StOK.cellSet {s : State} (h : StOK P s) {a : Nat} {xs} (hc : s.cell a = some (.set xs)) : ValsOK P xs := h.cell hc
+theorem StOK.cellMap {s : State} (h : StOK P s) {a : Nat} {kvs} (hc : s.cell a = some (.map kvs)) : PairsOK P kvs := h.cell hc
+theorem StOK.cellObj {s : State} (h : StOK P s) {a : Nat} {kvs m} (hc : s.cell a = some (.obj kvs m)) : DictOK P kvs :=
+  h.cell hc
+theorem ValOK.brk_iff {p : Pos} : ValOK P (.brk p) ↔ P p := Iff.rfl
+theorem ValOK.cont_iff {p : Pos} : ValOK P (.cont p) ↔ P p := Iff.rfl
+theorem ValOK.ret_iff {v : RVal} {p : Pos} : ValOK P (.ret v p) ↔ P p ∧ ValOK P v := Iff.rfl
+theorem ValOK.retI {v : RVal} {p : Pos} (hp : P p) (hv : ValOK P v) : ValOK P (.ret v p) := ⟨hp, hv⟩
+theorem ValsOK.toArrayList {xs : List RVal} (h : ValsOK P xs) : ValsOK P xs.toArray.toList := by simpa using h
+end
 
-structure PosOK (m : EvalM α) : Prop where
-  run : ∀ s, S s → OutOK E S (m s)
+/-- bring the value facts of the context and the goal into the normal forms `ValOK` / `ValsOK` /
+    `DictOK` / `PairsOK` -/
+macro "vc_norm" : tactic => `(tactic|
+  try simp only [VC.rval, VC.vals, VC.dict, VC.pairs, VC.arr, VC.cell, VC.prod, VC.some, VC.none, VC.unit, VC.bool,
+    VC.int, VC.nat, VC.string, VC.state, VC.chars, VC.strings, VC.optStrings, VC.compr_single, CellOK, ValsOK.cons_iff, ValsOK.nil_iff,
+    PairsOK.cons_iff, PairsOK.nil_iff, DictOK.cons_iff, DictOK.nil_iff, ValOK.brk_iff,
+    ValOK.cont_iff, ValOK.ret_iff, boolV,
+    and_true, true_and, and_self, imp_true_iff, forall_const] at *)
+
+/-- the value side conditions: every value the program hands on was OK before.  The lemmas that apply
+    to every goal have an equation or membership fact of the context as their first premise. -/
+macro "vok" : tactic => `(tactic| first
+  | assumption
+  | exact trivial
+  | (vc_norm; all_goals ((repeat (cases ‹_ ∧ _›)); first
+      | assumption
+      | exact trivial
+      | (solve_by_elim (maxDepth := 24) (constructor := false) [@ValsOK.nil, @ValsOK.cons, @ValsOK.append,
+          @ValsOK.filter, @ValsOK.take, @ValsOK.drop, @ValsOK.set, @ValsOK.getD, @ValsOK.rangeGetD,
+          @ValsOK.replicateFlatten, @ValsOK.replicateNull, @ValsOK.slice, @ValsOK.substr, @ValsOK.insertAt, @ValsOK.deleteAt1, @ValsOK.deleteAt2,
+          @ValsOK.setAdd, @ValsOK.foldSetAdd, @ValsOK.arrGetD, @ValsOK.arrSet, @DictOK.mapLookupD, @ValsOK.mapAtom,
+          @DictOK.nil, @DictOK.cons, @DictOK.put, @DictOK.del, @DictOK.getD, @DictOK.vals, @DictOK.zip,
+          @DictOK.foldPut, @PairsOK.nil, @PairsOK.cons, @PairsOK.append, @PairsOK.put, @PairsOK.del, @PairsOK.keys,
+          @PairsOK.vals, @PairsOK.foldPut, @StOK.lookupD, @ValOK.retI, @And.intro, @trivial, @rfl,
+          @ValsOK.sortedR', @PairsOK.sortedEntriesR', @StOK.set', @StOK.findOwner', @StOK.cellList', @StOK.cellSet', @StOK.cellMap', @StOK.cellObj',
+          @DictOK.get', @PairsOK.get', @ValsOK.getElem?', @ValsOK.deref', @StOK.lookup', @ValsOK.of_mem',
+          @DictOK.snd_of_mem', @PairsOK.fst_of_mem', @PairsOK.snd_of_mem', @ValsOK.zip_fst', @ValsOK.zip_snd',
+          @ValOK.ofFunc]))))
+
+section
+variable {α β : Type} (E : String → Pos → List (String × Pos) → Prop) (P : Pos → Prop)
+
+def OutOK [VC α] : Out α → Prop
+  | .ok a s => VC.ok P a ∧ StOK P s
+  | .err _ m p t s => E m p t ∧ StOK P s
+  | .fail _ s => StOK P s
+
+structure PosOK [VC α] (m : EvalM α) : Prop where
+  run : ∀ s, StOK P s → OutOK E P (m s)
 end
 
 section
-variable {α β : Type} {E : String → Pos → List (String × Pos) → Prop} {S : State → Prop}
+variable {α β : Type} {E : String → Pos → List (String × Pos) → Prop} {P : Pos → Prop}
 
-@[simp] theorem OutOK_ok (a : α) (s : State) : OutOK E S (.ok a s : Out α) ↔ S s := Iff.rfl
-@[simp] theorem OutOK_err (v m p t) (s : State) : OutOK E S (.err v m p t s : Out α) ↔ E m p t ∧ S s := Iff.rfl
-@[simp] theorem OutOK_fail (f) (s : State) : OutOK E S (.fail f s : Out α) ↔ S s := Iff.rfl
+@[simp] theorem OutOK_ok [VC α] (a : α) (s : State) : OutOK E P (.ok a s : Out α) ↔ VC.ok P a ∧ StOK P s := Iff.rfl
+@[simp] theorem OutOK_err [VC α] (v m p t) (s : State) :
+    OutOK E P (.err v m p t s : Out α) ↔ E m p t ∧ StOK P s := Iff.rfl
+@[simp] theorem OutOK_fail [VC α] (f) (s : State) : OutOK E P (.fail f s : Out α) ↔ StOK P s := Iff.rfl
 
 /-- the final state of an outcome -/
 def Out.state : Out α → State
@@ -59,115 +131,94 @@ def Out.state : Out α → State
   | .err _ _ _ _ s => s
   | .fail _ s => s
 
-theorem OutOK.state {o : Out α} (h : OutOK E S o) : S o.state := by
+theorem OutOK.state [VC α] {o : Out α} (h : OutOK E P o) : StOK P o.state := by
   cases o with
-  | ok a s => exact h
+  | ok a s => exact h.2
   | err v m p t s => exact h.2
   | fail f s => exact h
 
 namespace PosOK
 
-theorem ofFun {f : State → Out α} (h : ∀ s, S s → OutOK E S (f s)) : PosOK E S (f : EvalM α) := ⟨h⟩
+theorem ofFun [VC α] {f : State → Out α} (h : ∀ s, StOK P s → OutOK E P (f s)) : PosOK E P (f : EvalM α) := ⟨h⟩
 
-theorem pure (a : α) : PosOK E S (Pure.pure a : EvalM α) := ⟨fun _ hs => hs⟩
+theorem pure [VC α] {a : α} (h : VC.ok P a) : PosOK E P (Pure.pure a : EvalM α) := ⟨fun _ hs => ⟨h, hs⟩⟩
 
-theorem bind {m : EvalM α} {f : α → EvalM β} (hm : PosOK E S m) (hf : ∀ a, PosOK E S (f a)) :
-    PosOK E S (m >>= f) := by
+theorem bind [VC α] [VC β] {m : EvalM α} {f : α → EvalM β} (hm : PosOK E P m)
+    (hf : ∀ a, VC.ok P a → PosOK E P (f a)) : PosOK E P (m >>= f) := by
   constructor
   intro s hs
   rw [EvalM.bind_apply]
   have := hm.run s hs
   cases h : m s with
-  | ok a s1 => rw [h] at this; exact (hf a).run s1 this
+  | ok a s1 => rw [h] at this; exact (hf a this.1).run s1 this.2
   | err v msg p t s1 => rw [h] at this; exact this
   | fail k s1 => rw [h] at this; exact this
 
 /-- reading the state: the continuation may use that the state read satisfies the invariant -/
-theorem getS_bind {f : State → EvalM β} (hf : ∀ s0, S s0 → PosOK E S (f s0)) :
-    PosOK E S (getS >>= f) := ⟨fun s hs => (hf s hs).run s hs⟩
+theorem getS_bind [VC β] {f : State → EvalM β} (hf : ∀ s0, StOK P s0 → PosOK E P (f s0)) :
+    PosOK E P (getS >>= f) := ⟨fun s hs => (hf s hs).run s hs⟩
 
-theorem getS : PosOK E S getS := ⟨fun _ hs => hs⟩
-theorem setS {s : State} (h : S s) : PosOK E S (setS s) := ⟨fun _ _ => h⟩
-theorem modifyS {f : State → State} (h : ∀ s, S s → S (f s)) : PosOK E S (modifyS f) := ⟨fun s hs => h s hs⟩
-theorem throwV {v : RVal} {msg : String} {pos : Pos} (h : E msg pos []) : PosOK E S (throwV v msg pos : EvalM α) :=
+theorem getS : PosOK E P getS := ⟨fun _ hs => ⟨trivial, hs⟩⟩
+theorem setS {s : State} (h : StOK P s) : PosOK E P (setS s) := ⟨fun _ _ => ⟨trivial, h⟩⟩
+theorem modifyS {f : State → State} (h : ∀ s, StOK P s → StOK P (f s)) : PosOK E P (modifyS f) :=
+  ⟨fun s hs => ⟨trivial, h s hs⟩⟩
+theorem throwV [VC α] {v : RVal} {msg : String} {pos : Pos} (h : E msg pos []) :
+    PosOK E P (throwV v msg pos : EvalM α) := ⟨fun _ hs => ⟨h, hs⟩⟩
+theorem throwE [VC α] {msg : String} {pos : Pos} (h : E msg pos []) : PosOK E P (throwE msg pos : EvalM α) :=
   ⟨fun _ hs => ⟨h, hs⟩⟩
-theorem throwE {msg : String} {pos : Pos} (h : E msg pos []) : PosOK E S (throwE msg pos : EvalM α) :=
-  ⟨fun _ hs => ⟨h, hs⟩⟩
-theorem failM (f : Fail) : PosOK E S (failM f : EvalM α) := ⟨fun _ hs => hs⟩
-theorem unsupported (w : String) : PosOK E S (unsupported w : EvalM α) := ⟨fun _ hs => hs⟩
-theorem cellOf (v : RVal) : PosOK E S (cellOf v) := by
-  constructor; intro s hs; unfold Ckl.cellOf; split <;> exact hs
-theorem typeOf (v : RVal) : PosOK E S (typeOf v) := ⟨fun _ hs => hs⟩
-theorem allocM [StInv S] {c : Cell} (hc : DataCell c) : PosOK E S (allocM c) :=
-  ⟨fun s hs => StInv.alloc s c hc hs⟩
-theorem newList [StInv S] (xs : List RVal) : PosOK E S (newList xs) := allocM trivial
+theorem failM [VC α] (f : Fail) : PosOK E P (failM f : EvalM α) := ⟨fun s hs => show OutOK E P (Out.fail f s) from hs⟩
+theorem unsupported [VC α] (w : String) : PosOK E P (unsupported w : EvalM α) := failM _
+theorem cellOf (v : RVal) : PosOK E P (cellOf v) := by
+  constructor; intro s hs; unfold Ckl.cellOf; split
+  · exact ⟨fun c hc => hs.cell hc, hs⟩
+  · exact ⟨fun _ hc => (nomatch hc), hs⟩
+theorem typeOf (v : RVal) : PosOK E P (typeOf v) := ⟨fun _ hs => ⟨trivial, hs⟩⟩
+theorem allocM {c : Cell} (hc : CellOK P c) : PosOK E P (allocM c) := ⟨fun _ hs => ⟨trivial, hs.alloc hc⟩⟩
+theorem newList {xs : List RVal} (h : ValsOK P xs) : PosOK E P (newList xs) := allocM h
 
-theorem mapM {γ δ : Type} (f : γ → EvalM δ) (hf : ∀ a, PosOK E S (f a)) (xs : List γ) : PosOK E S (xs.mapM f) := by
+theorem mapM_vals {γ : Type} (f : γ → EvalM RVal) (xs : List γ) (hf : ∀ a ∈ xs, PosOK E P (f a)) :
+    PosOK E P (xs.mapM f) := by
   induction xs with
-  | nil => rw [List.mapM_nil]; exact pure _
+  | nil => rw [List.mapM_nil]; exact pure ValsOK.nil
   | cons x xs ih =>
     rw [List.mapM_cons]
-    exact bind (hf x) (fun _ => bind ih (fun _ => pure _))
+    refine bind (hf x List.mem_cons_self) (fun a ha => bind (ih (fun y hy => hf y (List.mem_cons_of_mem _ hy))) ?_)
+    intro as has
+    exact pure (ValsOK.cons ha has)
 
 end PosOK
-
-/-- folds of heap-preserving updates preserve the heap -/
-theorem foldl_heap {γ : Type} (f : State → γ → State) (hf : ∀ s x, (f s x).heap = s.heap) (xs : List γ) (s : State) :
-    (xs.foldl f s).heap = s.heap := by
-  induction xs generalizing s with
-  | nil => rfl
-  | cons x xs ih => rw [List.foldl_cons, ih, hf]
-
 end
-
-theorem setF_heap (s : State) : ∀ (fuel : Nat) (e : EnvId) (x : String) (v : RVal) (s' : State),
-    s.setF fuel e x v = some s' → s'.heap = s.heap
-  | 0, _, _, _, _, h => by simp [State.setF] at h
-  | fuel + 1, e, x, v, s', h => by
-    unfold State.setF at h
-    dsimp only at h
-    split at h
-    · cases h; rfl
-    · split at h
-      · exact setF_heap s fuel _ x v s' h
-      · cases h
-
-theorem set_heap {s s' : State} {e : EnvId} {x : String} {v : RVal} (h : s.set e x v = some s') :
-    s'.heap = s.heap := setF_heap s _ e x v s' h
-
-/-- `s'.heap = s.heap` for the state updates of the model that do not touch the heap -/
-macro "heap_eq" : tactic => `(tactic| first
-  | rfl
-  | (apply foldl_heap; intro _ _; first | rfl | (split <;> rfl)))
-
-/-- `S (f s)` from some `S s` in the context -/
-macro "stinv" : tactic => `(tactic| first
-  | assumption
-  | exact trivial
-  | (apply StInv.setCell _ _ _ trivial; assumption)
-  | (apply StInv.alloc _ _ trivial; assumption)
-  | (refine StInv.heap_eq _ _ ?_ ?_; rotate_left; assumption; heap_eq)
-  | (refine StInv.heap_eq _ _ (set_heap (by assumption)) ?_; assumption))
-
-/-- `∀ s, S s → S (f s)` -/
-macro "stinv_fun" : tactic => `(tactic| (intro s hs; first
-  | exact hs
-  | exact trivial
-  | exact StInv.setCell _ _ _ trivial hs
-  | exact StInv.alloc _ _ trivial hs
-  | exact StInv.heap_eq _ _ (by heap_eq) hs))
 
 /-- `E msg pos []` (or `∀ msg, E msg pos []`) from the context; extended by the instances -/
 syntax "eok" : tactic
-macro_rules | `(tactic| eok) => `(tactic| first | assumption | apply_assumption (exfalso := false) (symm := false))
+macro_rules | `(tactic| eok) => `(tactic| first | assumption | (apply_assumption (exfalso := false) (symm := false) <;> assumption))
+
+/-- `StOK P s'` for a state `s'` computed from a state of the context -/
+macro "stinv" : tactic => `(tactic| first
+  | assumption
+  | (apply StOK.newEnv; assumption)
+  | (refine StOK.set' (by assumption) (by assumption) ?_; vok)
+  | (refine StOK.of_eq' ?_ rfl rfl; assumption))
+
+/-- `∀ s, StOK P s → StOK P (f s)` for the state updates of the model -/
+macro "stinv_fun" : tactic => `(tactic| (intro s hs; first
+  | exact hs
+  | exact StOK.of_eq' hs rfl rfl
+  | (refine StOK.put hs _ _ ?_; vok)
+  | exact StOK.remove hs _ _
+  | (refine StOK.setCell hs _ ?_; vok)
+  | (apply StOK.foldl hs; intro _ _ _ hs'; first
+      | exact StOK.remove hs' _ _
+      | (refine StOK.put hs' _ _ ?_; vok)
+      | (split <;> first | exact hs' | (refine StOK.put hs' _ _ ?_; vok)))))
 
 /-- library facts; extended as they are proved -/
 syntax "posok_lib" : tactic
 macro_rules | `(tactic| posok_lib) => `(tactic| fail "no library fact applies")
 
-/-- one decomposition step for goals `PosOK E S (do …)` -/
+/-- one decomposition step for goals `PosOK E P (do …)` -/
 macro "posok_step" : tactic => `(tactic| first
-  | exact PosOK.pure _
+  | (apply PosOK.pure; vok)
   | exact PosOK.getS
   | (apply PosOK.setS; stinv)
   | (apply PosOK.modifyS; stinv_fun)
@@ -175,14 +226,14 @@ macro "posok_step" : tactic => `(tactic| first
   | (apply PosOK.throwE; eok)
   | exact PosOK.unsupported _
   | exact PosOK.failM _
-  | (apply PosOK.allocM; exact trivial)
-  | exact PosOK.newList _
+  | (apply PosOK.allocM; vok)
+  | (apply PosOK.newList; vok)
   | exact PosOK.cellOf _
   | exact PosOK.typeOf _
   | posok_lib
   | (with_reducible apply PosOK.getS_bind; intro _ _)
   | with_reducible apply PosOK.bind
-  | (with_reducible apply PosOK.mapM; intro _)
+  | (with_reducible apply PosOK.mapM_vals; intro _ _)
   | intro _
   | dsimp only [State.newEnv]
   | split)
@@ -192,55 +243,55 @@ macro "posok" : tactic => `(tactic| repeat' posok_step)
 /-! ### non-recursive helpers of `EvalBase` -/
 
 section
-variable {E : String → Pos → List (String × Pos) → Prop} {S : State → Prop}
+variable {E : String → Pos → List (String × Pos) → Prop} {P : Pos → Prop}
 
 namespace PosOK
 
-theorem argGet (args : List (String × RVal)) (name : String) {pos : Pos} (h : ∀ msg, E msg pos []) :
-    PosOK E S (argGet args name pos) := by
+theorem argGet {args : List (String × RVal)} (ha : DictOK P args) (name : String) {pos : Pos}
+    (h : ∀ msg, E msg pos []) : PosOK E P (argGet args name pos) := by
   unfold Ckl.argGet; posok
 
-theorem getIndex (idx : RVal) {pos : Pos} (h : ∀ msg, E msg pos []) : PosOK E S (getIndex idx pos) := by
+theorem getIndex (idx : RVal) {pos : Pos} (h : ∀ msg, E msg pos []) : PosOK E P (getIndex idx pos) := by
   unfold Ckl.getIndex; posok
 
-theorem asStringM (v : RVal) {pos : Pos} (h : ∀ msg, E msg pos []) : PosOK E S (asStringM v pos) := by
+theorem asStringM (v : RVal) {pos : Pos} (h : ∀ msg, E msg pos []) : PosOK E P (asStringM v pos) := by
   unfold Ckl.asStringM; posok
 
 theorem bindNamed (sp : ArgSpec) {pos : Pos} (h : ∀ msg, E msg pos []) (ns : List (Option String)) (vs : List RVal)
-    (args : List (String × RVal)) : PosOK E S (bindNamed sp pos ns vs args) := by
+    (args : List (String × RVal)) (hvs : ValsOK P vs) (ha : DictOK P args) :
+    PosOK E P (bindNamed sp pos ns vs args) := by
   induction ns generalizing vs args with
-  | nil => unfold Ckl.bindNamed; exact pure _
+  | nil => unfold Ckl.bindNamed; exact pure ha
   | cons n ns ih =>
     cases vs with
-    | nil => unfold Ckl.bindNamed; exact pure _
+    | nil => unfold Ckl.bindNamed; exact pure ha
     | cons v vs =>
       unfold Ckl.bindNamed
-      have := fun vs args => ih vs args
       posok
-      all_goals apply_assumption
+      · exact ih _ _ hvs.tail (ha.put _ hvs.head)
+      · exact ih _ _ hvs.tail ha
 
 theorem bindPositional (sp : ArgSpec) {pos : Pos} (h : ∀ msg, E msg pos []) (ns : List (Option String)) (vs : List RVal)
-    (kw : Bool) (args : List (String × RVal)) (rest : List RVal) :
-    PosOK E S (bindPositional sp pos ns vs kw args rest) := by
+    (kw : Bool) (args : List (String × RVal)) (rest : List RVal) (hvs : ValsOK P vs) (ha : DictOK P args)
+    (hr : ValsOK P rest) : PosOK E P (bindPositional sp pos ns vs kw args rest) := by
   induction ns generalizing vs kw args rest with
-  | nil => unfold Ckl.bindPositional; exact pure _
+  | nil => unfold Ckl.bindPositional; exact pure ⟨ha, hr⟩
   | cons n ns ih =>
     cases vs with
-    | nil => unfold Ckl.bindPositional; exact pure _
+    | nil => unfold Ckl.bindPositional; exact pure ⟨ha, hr⟩
     | cons v vs =>
       unfold Ckl.bindPositional
       posok
-      all_goals apply ih
+      · exact ih _ _ _ _ hvs.tail ha (hr.append (ValsOK.cons hvs.head ValsOK.nil))
+      · exact ih _ _ _ _ hvs.tail (ha.put _ hvs.head) hr
+      · exact ih _ _ _ _ hvs.tail (ha.put _ hvs.head) hr
 
-variable [StInv S]
-
-theorem setArgs (paramNames : List String) (names : List (Option String)) (values : List RVal) {pos : Pos}
-    (h : ∀ msg, E msg pos []) : PosOK E S (setArgs paramNames names values pos) := by
+theorem setArgs (paramNames : List String) (names : List (Option String)) {values : List RVal} (hv : ValsOK P values)
+    {pos : Pos} (h : ∀ msg, E msg pos []) : PosOK E P (setArgs paramNames names values pos) := by
   unfold Ckl.setArgs
-  have h1 := bindNamed (S := S) (addArgs paramNames) h names values []
-  have h2 := fun a => bindPositional (S := S) (addArgs paramNames) h names values false a []
+  refine bind (bindNamed (addArgs paramNames) h names values [] hv DictOK.nil) (fun a1 ha1 => ?_)
+  refine bind (bindPositional (addArgs paramNames) h names values false a1 [] hv ha1 ValsOK.nil) (fun r hr => ?_)
   posok
-  all_goals apply_assumption
 
 end PosOK
 end
